@@ -91,6 +91,9 @@ inductive Prim where
   | jtResize (n : Nat)               -- `mm.resize(n)` on the tmp journal
   | jtStore (off : Nat) (bs : Bytes) -- slice store into the tmp journal
   | jtRename                         -- `shutil.move(journal + '.tmp', journal)`: atomic replace
+  -- creation of the journal file itself (`ResizableFile.__init__` on a missing / zero-length file)
+  | fCreate                          -- `open(journal, 'wb')`: the file exists and is empty
+  | fWrite (bs : Bytes)              -- `f.write(defaultContent)` + close
 deriving DecidableEq, Repr
 
 inductive Tmp where
@@ -128,6 +131,8 @@ def applyPrim (d : Disk) : Prim → Disk
     match d.jtmp with
     | none => d
     | some f => { d with file := f, jtmp := none }
+  | .fCreate => { d with file := [] }
+  | .fWrite bs => { d with file := bs }
 
 def applyPrims (d : Disk) (ps : List Prim) : Disk := ps.foldl applyPrim d
 
@@ -140,6 +145,7 @@ def tornPrim (d : Disk) (p : Prim) (t : Nat) : Disk :=
   | .store off bs => if atomicStore off bs then d else { d with file := storeAt d.file off (bs.take t) }
   | .tmpWrite _ => { d with tmp := .torn }
   | .jtWrite bs => { d with jtmp := some (bs.take t) }
+  | .fWrite bs => { d with file := bs.take t }
   | .jtStore off bs =>
     if atomicStore off bs then d else { d with jtmp := d.jtmp.map (storeAt · off (bs.take t)) }
   | _ => d
@@ -216,9 +222,10 @@ def scan (f : Bytes) (last cur : Nat) : Except Err (List Entry × Nat) :=
 termination_by last - cur
 decreasing_by omega
 
-/-- `FileJournal(path)` on an existing file, by code whose `APP_VERSION` is `ver`. A left-over
-`<journal>.tmp` is ignored. -/
-def openDisk (ver : Bytes) (d : Disk) : Except Err (FJ × List Prim) :=
+/-- The constructor after `ResizableFile` has made sure the file has its default content:
+mmap (an empty file cannot be mapped), grow to `INITIAL_SIZE`, read the header word, scan.
+`p0` = primitives already issued. A left-over `<journal>.tmp` is ignored. -/
+def openCore (ver : Bytes) (d : Disk) (p0 : List Prim) : Except Err (FJ × List Prim) :=
   if d.file.length = 0 then .error .emptyFile
   else
     let ps : List Prim := if d.file.length < INITIAL_SIZE then [.resize INITIAL_SIZE] else []
@@ -229,9 +236,22 @@ def openDisk (ver : Bytes) (d : Disk) : Except Err (FJ × List Prim) :=
       match scan d'.file last FIRST_RECORD_OFFSET with
       | .error e => .error e
       | .ok (es, c) =>
-        .ok ({ disk := d', entries := es, cur := c, mci := d'.metaFile, metaSaved := true, ver := ver }, ps)
+        .ok ({ disk := d', entries := es, cur := c, mci := d'.metaFile, metaSaved := true, ver := ver },
+             p0 ++ ps)
 
-/-- `FileJournal(path)` when the file does not exist yet. -/
+/-- The primitives of `ResizableFile.__init__` writing the default content. -/
+def createPrims (ver : Bytes) : List Prim := [.fCreate, .fWrite (defaultHeader ver)]
+
+/-- `FileJournal(path)` by code whose `APP_VERSION` is `ver` (with the repair of D74: a zero-length
+journal file — what a kill between `open(path, 'wb')` and the write of the default content leaves —
+is treated like a missing one: the default content is written first). The model does not
+distinguish a missing file from an empty one: `file = []` stands for both. -/
+def openDisk (ver : Bytes) (d : Disk) : Except Err (FJ × List Prim) :=
+  if d.file.length = 0 then openCore ver (applyPrims d (createPrims ver)) (createPrims ver)
+  else openCore ver d []
+
+/-- `FileJournal(path)` when the file does not exist yet (= `openDisk ver { file := [] }`, see
+`PSO.C08.create_is_open`). -/
 def create (ver : Bytes) : FJ :=
   { disk := { file := resizeFile (defaultHeader ver) INITIAL_SIZE }, entries := [],
     cur := FIRST_RECORD_OFFSET, mci := none, metaSaved := true, ver := ver }
